@@ -235,7 +235,7 @@ def c12(tier):
     run_s2c(rep, "MC_Binary", bin_cfg(spec="SpecF", keys="KFull", look="LFull", vals="V2", maxlive=5,
                                       inv=["Canonical", "EmitSt"], prop=(), emit=""), R,
             simulate=dict(num=240 if tier == "quick" else 4800, depth=12))
-    need(rep, ["last:set-refused", "last:delsub", "last:del", "has-kv", "has-branch", "has-leaf",
+    need(rep, ["last:set-refused", "last:delsub", "last:del", "last:checkout", "has-kv", "has-branch", "has-leaf",
                "failed-write-in-mid-history"])
     binary_traces(rep, tier, {"C12"})
     if tier == "thorough":
